@@ -299,6 +299,35 @@ class SSeq:
     def _wrap_imm(self, items):
         return make(self.kind, items)
 
+    def splitlines(self, keepends=False):
+        if self.kind == STR:
+            raise Unsupported('str.splitlines on symbolic text')
+        out = []
+        cur_line = []
+        items = self.items
+        n = len(items)
+        k = 0
+        while k < n:
+            c = items[k]
+            if c == 13:
+                end = [c]
+                if k + 1 < n and items[k + 1] == 10:
+                    end.append(items[k + 1])
+                    k += 1
+                out.append(self._wrap_imm(cur_line + (end if keepends
+                                                      else [])))
+                cur_line = []
+            elif c == 10:
+                out.append(self._wrap_imm(cur_line + ([c] if keepends
+                                                      else [])))
+                cur_line = []
+            else:
+                cur_line.append(c)
+            k += 1
+        if cur_line:
+            out.append(self._wrap_imm(cur_line))
+        return out
+
     def rjust(self, width, fill=None):
         if fill is None:
             fill = b' ' if self.kind != STR else ' '
